@@ -439,9 +439,24 @@ fn judge(c: &Candidate, out: &mut Out) -> Result<(), (String, String)> {
         paths.push(("Machine::validate", j(v)));
         let n = Machine::new(m.allowed_padding_packets, m.max_padding_frac, m.allowed_blocked_microsec, m.max_blocking_frac, m.states.clone()).is_ok();
         paths.push(("Machine::new", j(n)));
-        let ms = [m.clone()];
-        let f = Framework::new(&ms[..], 0.5, 0.5, VClock(0), ScriptRng::fair(1)).is_ok();
-        paths.push(("Framework::new", j(f)));
+        // alone and in every position among valid companions: a framework is accepted exactly when all
+        // of its machines are
+        let good = {
+            let mut s0 = State::new(enum_map! { Event::NormalSent => vec![Trans(0, 1.0)], _ => vec![] });
+            s0.action = Some(Action::Cancel { timer: Timer::All });
+            Machine::new(1, 0.5, 1, 0.5, vec![s0]).unwrap()
+        };
+        let line_ups: [(&'static str, Vec<Machine>); 5] = [
+            ("Framework::new", vec![m.clone()]),
+            ("Framework::new([m, valid])", vec![m.clone(), good.clone()]),
+            ("Framework::new([valid, m])", vec![good.clone(), m.clone()]),
+            ("Framework::new([valid, m, valid])", vec![good.clone(), m.clone(), good.clone()]),
+            ("Framework::new([m, m, valid])", vec![m.clone(), m.clone(), good.clone()]),
+        ];
+        for (name, ms) in line_ups {
+            let f = Framework::new(&ms[..], 0.5, 0.5, VClock(0), ScriptRng::fair(1)).is_ok();
+            paths.push((name, j(f)));
+        }
         // the object's own serialization
         let s = m.serialize();
         let p = Machine::from_str(&s).is_ok();
@@ -545,7 +560,10 @@ impl Prop for C12 {
             self.matrix_done = true;
             let m = matrix();
             out.add("matrix_objects", m.len() as u64);
-            for c in &m {
+            for (i, c) in m.iter().enumerate() {
+                if i % 256 == 0 {
+                    crate::hb_tag(&format!("matrix object {i}"));
+                }
                 out.evaluations += 1;
                 if let Err((sig, msg)) = judge(c, out) {
                     out.violation(sig, msg, json!({"object": format!("{:?}", c.mirror), "encoding": mirror_string(&c.mirror)}));
@@ -553,11 +571,12 @@ impl Prop for C12 {
                     out.nontrivial(hash_of(&c.desc));
                 }
             }
+            crate::hb_tag("");
             out.extra.insert("matrix_exhaustive".into(), json!(true));
             out.extra.insert(
                 "matrix".into(),
                 json!({"numeric_slots": 29 + 3, "special_values_f64": specials64().len(), "special_values_f32": specials32().len(),
-                       "placements": PLACES, "objects": m.len(), "paths": ["Machine::validate", "Machine::new", "Framework::new", "Machine::from_str(serialize)", "Machine::from_str(bytes)"]}),
+                       "placements": PLACES, "objects": m.len(), "paths": ["Machine::validate", "Machine::new", "Framework::new (alone and in 4 line-ups with valid companions)", "Machine::from_str(serialize)", "Machine::from_str(bytes)"]}),
             );
         }
         let mut r = xo(cx.seed);
